@@ -77,6 +77,11 @@ def _expr(E, s, x, y, A, xd, yd, Ad):
         r = tt.pad(x, tuple((1, 0) for _ in range(d)), 0.0)
         rd = tn.nn.functional.pad(xd, tuple([1, 0] * d))
         return _weighted(E, 'w', r.full()), _weighted(E, 'w', rd)
+    if e == 'pad_short':
+        # fewer padding pairs than modes: they belong to the trailing modes (as in torch.nn.functional.pad)
+        r = tt.pad(x, ((1, 0),), 0.0)
+        rd = tn.nn.functional.pad(xd, (1, 0))
+        return _weighted(E, 'w', r.full()), _weighted(E, 'w', rd)
     if e == 'diag':
         r = tt.diag(tt.diag(x))
         return _weighted(E, 'w', r.full()), _weighted(E, 'w', xd)
